@@ -235,6 +235,25 @@ class Walker:
                         break
                     if t["t"] is None:
                         break  # diverging call
+                    if res is not None and res[0] == "forkvals":
+                        # several possible results, each with the facts under which it is produced (an inlined helper that
+                        # matches on its argument): continue with the first consistent one, fork the others
+                        alts = [a for a in res[1] if all(path.facts.get(k, fv) == fv for k, fv in a[1].items())]
+                        if not alts:
+                            break
+                        dp0 = t["dest"]
+                        for a in alts[1:]:
+                            p2 = path.fork()
+                            p2.facts.update(a[1])
+                            if len(a) > 2:
+                                p2.events += list(a[2])
+                            if not dp0["p"]:
+                                p2.env[dp0["l"]] = clip(a[0])
+                            stack.append((t["t"], p2))
+                        path.facts.update(alts[0][1])
+                        if len(alts[0]) > 2:
+                            path.events += list(alts[0][2])
+                        res = ("value", alts[0][0])
                     val = res[1] if res is not None and res[0] == "value" else ("call", name or "?", args, site)
                     # mutation through `&mut local` arguments: the local's value now also depends on the other arguments
                     for ai, a in enumerate(t["args"]):
@@ -423,4 +442,48 @@ def with_closures(F, on_call, depth=2):
                 if got:
                     path.events += max(got, key=len)
         return res
+    return hook
+
+
+def with_inlining(F, on_call, prefixes, max_blocks=400, depth=2, only=None):
+    """wrap an on_call hook: a call to a small, loop-free workspace helper that the hook itself does not interpret is
+    replaced by the helper's own results — one alternative per return path, each with the branch facts (in the caller's
+    terms, because the helper is walked with the caller's argument terms bound to its parameters) under which it is taken.
+    This lets table extractors see through `record.record_type()` / `payload_layout(&record)` style helpers."""
+    state = {"depth": 0}
+
+    def hook(path, bb, t, name, args):
+        res = on_call(path, bb, t, name, args) if on_call else None
+        if res is not None:
+            return res
+        d, r, c = callee_of(t)
+        cid = r or d
+        g = F.fns.get(cid)
+        if g is None or not g.body or state["depth"] >= depth or not cid.startswith(tuple(prefixes)):
+            return None
+        if only is not None and not only(g):
+            return None
+        gb = Body(g)
+        if len(gb.blocks) > max_blocks or gb.loops() or len(g.inputs) != len(args):
+            return None
+        init = Path()
+        for i, a in enumerate(args):
+            init.env[i + 1] = a
+        init.facts = dict(path.facts)
+        base_facts = dict(path.facts)
+        outs = []
+        cw = Walker(g, follow_errors=True, max_visits=1, max_paths=400)
+        state["depth"] += 1
+        try:
+            cw.run(init=init, on_call=hook, on_return=lambda p: outs.append((p.env.get(0), {k: v for k, v in p.facts.items() if base_facts.get(k) != v}, list(p.events))))
+        finally:
+            state["depth"] -= 1
+        if cw.truncated or not outs or any(o[0] is None for o in outs):
+            return None
+        # error returns of the helper end the caller's path too when the caller propagates them; keep them as alternatives
+        if len(outs) == 1:
+            path.facts.update(outs[0][1])
+            path.events += outs[0][2]
+            return ("value", outs[0][0])
+        return ("forkvals", outs)
     return hook
